@@ -45,6 +45,7 @@ def make_mandatory(*names: str):
             hint = unoptional(field_parent_type(mcls, name))
             # update model and type hint (important for type analysis)
             mcls.__fields__[name].required = True
+            mcls.__fields__[name].allow_none = False  # (was Optional before)
             mcls.__annotations__[name] = hint
 
         return mcls
